@@ -224,6 +224,9 @@ func Body(r *vh.Rng, eightBit bool) []byte {
 	if r.Chance(5) {
 		n = 50 + r.Intn(200)
 	}
+	if r.Chance(1) {
+		n = 1500 + r.Intn(1500) // beyond io.Copy's 32 KiB buffer: the canonicalisers see several chunks
+	}
 	for i := 0; i < n; i++ {
 		switch k := r.Intn(24); {
 		case k == 0:
@@ -666,6 +669,24 @@ func MutateSig(r *vh.Rng, payload []byte) ([]byte, string) {
 	}
 	if idx < 0 {
 		return nil, ""
+	}
+	switch r.Intn(16) {
+	case 0: // the message starts with white space
+		return append([]byte(" "), payload...), "leading-space"
+	case 1: // no empty line after the header
+		var b bytes.Buffer
+		for _, f := range fields {
+			b.Write(f)
+		}
+		return b.Bytes(), "no-blank-line"
+	case 2: // no signature at all
+		var c [][]byte
+		for _, f := range fields {
+			if Name(f) != "dkim-signature" {
+				c = append(c, f)
+			}
+		}
+		return Join(c, body), "no-signature"
 	}
 	f := string(fields[idx])
 	colon := strings.IndexByte(f, ':')
